@@ -241,6 +241,7 @@ func NewUpstream(addr string, opt Opt) (_ Upstream, err error) {
 			if err != nil {
 				return nil, fmt.Errorf("failed to init udp socket for quic, %w", err)
 			}
+			defer closeIfFuncErr(conn) // quic.Transport does not close a Conn it did not create
 			quicTransport := &quic.Transport{
 				Conn: conn,
 			}
